@@ -24,8 +24,9 @@ package seencheck
 //@   ensures forall(k, string, k != hash ==> has(store, k) == old(has(store, k)) && store[k] == old(store[k]))
 
 // SeencheckItem (local store). `hash` is the key computed for the node of the current
-// iteration from its canonical text (FNV-64a of URL.String(), not modelled: the engine has no
-// link from []byte(s) back to s, so the key is an arbitrary value per iteration here).
+// iteration from its canonical text: the decimal FNV-64a sum of URL.String() and of nothing
+// else (assert [key]; the hasher is the engine's abstract accumulator, so a hasher that still
+// holds the bytes of an earlier item gives a different key and fails the assertion).
 // Ghost record of the current iteration, taken right after the lookup (isSeen changes
 // nothing, so this is the store before the iteration's write): the node, its key and type,
 // whether the store had the key and with which type. The invariant [step] is the
@@ -52,6 +53,8 @@ package seencheck
 //@   loop range invariant [step-new] rangeindex >= 0 && !gHad ==> has(store, gKey) && store[gKey] == gType && gNode.status == cur0 // C08: recorded as seen in the job (first time: recorded, not skipped)
 //@   loop range invariant [step-promotion] rangeindex >= 0 && promotion(gHad, gOld, gType) ==> has(store, gKey) && store[gKey] == "seed" && gNode.status == cur0 // C08: except a seed or redirect target whose URL had only been seen as an asset
 //@   loop range invariant [step-skip] rangeindex >= 0 && gHad && !promotion(gHad, gOld, gType) ==> gNode.status == models.ItemSeen && has(store, gKey) && store[gKey] == gOld // C08: any item checked afterwards with the same canonical URL is skipped rather than fetched again
+//@   loop range invariant [hasher-empty] hashed(h) == ""
+//@   assert isSeen(hash)#1: [key] hash == strconv.FormatUint(fnv64a(models.urlKey(items[i].url)), 10) // C08: any item checked afterwards with the same canonical URL is skipped (the key is a function of the item's own canonical URL only)
 //@   assert isSeen(hash)#1: [type] URLType == ite(items[i].parent != nil && items[i].parent.status == models.ItemGotChildren, "asset", "seed") // C08: a seed or redirect target is looked up and recorded as "seed", an asset as "asset"
 //@   assert SetStatus(?)#1: [sound] found && gHad && has(store, hash) && foundType == store[hash] && !promotion(found, foundType, URLType) // C08: an item is skipped as already seen only if the seen-store really reported it as seen
 //@   ensures [only-seen] forall(n, *models.Item, n.status == old(n.status) || n.status == models.ItemSeen)
